@@ -22,6 +22,7 @@ type c01Case struct {
 	Helper        bool        `json:"helper,omitempty"`         // cose.Sign1 / cose.Sign1Untagged helpers
 	DecodedParent bool        `json:"decoded_parent,omitempty"` // countersign a decoded (not constructed) parent
 	RawBody       bool        `json:"raw_body,omitempty"`       // the caller supplies Headers.RawProtected (a non-canonical encoding of the same map)
+	OpaqueKeys    bool        `json:"opaque_keys,omitempty"`    // signers are built over opaque crypto.Signer wrappers (HSM / KMS style)
 }
 
 // revChooser encodes maps in reverse entry order with minimal heads: a valid
@@ -181,6 +182,15 @@ func checkC01(c c01Case) error {
 	if err != nil {
 		return finding("signer", "%v", err)
 	}
+	if c.OpaqueKeys {
+		for i, s := range spec.Sigs {
+			ss[i], err = cose.NewSigner(cose.Algorithm(s.Key.Alg), opaqueSigner{s.Key.Private()})
+			if err != nil {
+				return finding("signer", "NewSigner over an opaque crypto.Signer: %v", err)
+			}
+		}
+		stats.Class("opaque-crypto-signers")
+	}
 	ext := spec.Ext()
 	var m *libMsg
 	if c.Helper && spec.Kind != refcose.KSign && len(spec.Groups) == 0 {
@@ -338,7 +348,7 @@ func c01Decoded(spec *gen.MsgSpec, wire []byte, vs []cose.Verifier) error {
 func init() { register("c01", checkC01) }
 
 func c01Opts() gen.MsgOpts {
-	return gen.MsgOpts{MaxSigners: 6, Csigs: true, Hdr: constructedHdrOpts(), HugeLens: true, Inject: true}
+	return gen.MsgOpts{MaxSigners: 6, Csigs: true, Hdr: constructedHdrOpts(), HugeLens: true, Inject: true, CrossCurve: true}
 }
 
 func TestC01_Random(t *testing.T) {
@@ -348,6 +358,7 @@ func TestC01_Random(t *testing.T) {
 		c.Helper = rapid.IntRange(0, 3).Draw(rt, "helper") == 0
 		c.DecodedParent = rapid.Bool().Draw(rt, "decoded-parent")
 		c.RawBody = rapid.IntRange(0, 4).Draw(rt, "raw-body") == 0
+		c.OpaqueKeys = rapid.IntRange(0, 4).Draw(rt, "opaque-keys") == 0
 		stats.Eval()
 		judge(rt, "c01", c, checkC01)
 	})
